@@ -24,15 +24,17 @@ ARQ = ("Modelled, not verified: f64 rounding (exact integer lengths, multiples o
 
 CLAIMS = {
  "C18": dict(
-   text="Kernel-checked theorems on the model of the tool's own logic: collapse leaves topology, names, comments and every other length untouched and sets a node's length to 0 exactly "
-        "when the node has a parent, a length below the threshold and is not an excluded tip; remove is prune (exact frame, C11) of every named tip and of the ancestors that lost all their "
-        "children, then compress (path lengths kept, C11), and is an error exit for unknown names and internal nodes; rescale is the library operation. The REAL binary built from the "
-        "working tree (without the verification cfg) is run on generated tree files for stats, matrix (both layouts, -o), distance, compare, collapse (-e), rescale, remove (random tips and "
-        "whole sibling groups) and resolve (-o): report outputs are compared with the library in-process, with independent computations (path walks, brute-force splits) and with the arena / "
-        "split / matrix models; transform outputs are parsed back and compared with the CLI model's arena and with the contract (only short branches zeroed; exactly the named tips "
-        "disappear, no new tip, remaining tip-to-tip distances and no unary node; every length multiplied; binary with distances preserved); the -o option writes the same content.",
+   text="Kernel-checked theorems on the model of the tool's own logic over the WHOLE loops: collapse on a well-formed arena with a root always succeeds, leaves children, parent, name, comment, depth of "
+        "every slot untouched, sets a node's length to 0 exactly when it has a parent, a length below the threshold and is not an excluded tip, updates the parent's record of that length consistently, "
+        "touches nothing outside the root's tree, and keeps the arena well formed; remove (prune each named tip, prune the ancestors that lost all children, compress): when it succeeds the arena is well "
+        "formed with one root, no one-child non-root node is left, no slot is revived, NO NEW TIP appears (a tip of the result was a tip of the input that was not removed — with the precise corner case of "
+        "the root once every tip is gone), every named node was a live tip carrying that name at its turn and is gone, and every tip-to-tip path length among the remaining tips is unchanged (C11's distance "
+        "theorems chained through the loop); otherwise it is one of four named error exits, never a fuel or panic outcome; rescale / resolve are the library operations (C11). The REAL binary built from "
+        "the working tree (without the verification cfg) is run on generated tree files for stats, matrix (both layouts), distance, compare, collapse (-e), rescale, remove (random tips and "
+        "whole sibling groups) and resolve: report outputs are compared with the library in-process, with independent computations (path walks, brute-force splits) and with the arena / "
+        "split / matrix models; transform outputs are parsed back and compared with the CLI model's arena and with the contract; -o for every subcommand into a PRE-EXISTING longer file must leave exactly the plain run's output.",
    note=NOTE + ARQ + "Modelled, not verified: clap argument parsing, the file system, process exit codes (a panic exit is an error exit); not covered: generate, draw, deduplicate, completion (not in the property).",
-   technique="Lean 4 proofs on the CLI-logic model (collapse frame, remove composition) + runs of the real binary compared with library, independent computations and models", ref="5 C18"),
+   technique="Lean 4 proofs on the CLI-logic model (collapse and remove contracts over the whole loops) + runs of the real binary compared with library, independent computations and models", ref="5 C18"),
  "C20": dict(
    text="Kernel-checked totality theorems per function family of the model, where every partial Rust operation is an explicit panic outcome and unbounded recursion is running out of fuel: "
         "the Newick parser never panics (all strings); the triangular Phylip parser never panics (all texts); the generator loops never fail (all oracles); recursive prune and "
@@ -114,12 +116,17 @@ CLAIMS = {
  "C04": dict(
    text="Kernel-checked theorems (1) on a state-machine model of the two RefCell caches: after the documented reset a query returns the value for the current tree, any number of "
         "queries return that value and never change the tree (induction over the query list), an edit followed by the reset is seen by every later query, and without the reset a "
-        "stale answer is possible (witness); (2) on the arena model: removed slots are never listed, found, used as root or entered by the abstraction all rose-level queries go "
-        "through. The crate's cached queries are tied to the cache-free model by random edit histories in six arena layouts interleaved with the reset and with all queries in random "
-        "order and multiplicity (id-level answers vs the model), and the property itself is evaluated on the real code: a 31-query battery answered by name on the edited tree, "
-        "on a tree freshly parsed from its Newick text, and a second time in another order.",
-   note=NOTE + ARQ + "The per-node subtree_distances cache is covered by the battery (distance_matrix on edited trees vs fresh parse) and by C08, not by a theorem of its own.",
-   technique="Lean 4 proofs on a cache state machine and on the arena queries + differential execution of interleaved edit/query histories vs model and vs fresh parse", ref="5 C04"),
+        "stale answer is possible (witness); (2) on the arena model: EVERY id-free query (leaf count and names, rooted, binary, length, cherries, Colless, Sackin, height, diameter, name searches, "
+        "the six traversals / listings read as names, bipartitions and the comparison functions, node-to-node distances and common ancestors with nodes addressed by pre-order position, both "
+        "distance matrices) refines a function of the abstract tree alone; hence two well-formed one-rooted arenas representing the same tree give the same answers whatever their layout, removed "
+        "slots or history (answers_depend_only_on_tree), and the arena reached by ANY admissible edit history answers exactly like the arena built afresh from its current tree by add + add_child in "
+        "pre-order, as the parser builds it (C04_history_vs_fresh); get_by_name after any history returns the node of the current tree with the smallest id carrying the name, never a removed slot; "
+        "removed slots are never listed, found, used as root or entered by the abstraction. The crate's cached queries are tied to the cache-free model by random edit histories in seven arena "
+        "layouts interleaved with the reset and with all queries in random order and multiplicity (id-level answers vs the model), and the property itself is evaluated on the real code: a 31-query "
+        "battery answered by name on the edited tree, on a tree freshly parsed from its Newick text, and a second time in another order; plus the cache PROTOCOL matrix (one cache-touching query x "
+        "one kind of edit x reset x everything).",
+   note=NOTE + ARQ + "The per-node subtree_distances cache is covered by the battery, the protocol matrix and C08. The link from the freshly BUILT arena to the freshly PARSED arena (parser model) is being closed by a separate composed theorem; until then it rests on C01/C02 plus the correspondence.",
+   technique="Lean 4 proofs on a cache state machine + refinement of every arena query to a function of the abstract tree (layout / history independence) + differential execution of interleaved edit/query histories vs model and vs fresh parse", ref="5 C04"),
  "C11": dict(
    text="Kernel-checked theorems: prune terminates and removes exactly the chosen subtree (a slot dies iff it lies below the node; every other slot is unchanged except the parent's "
         "child list); the regrouping step of merge_children/resolve has the exact frame (new node = fresh slot with children [c1,c2], parent's list = old list minus them plus the new "
@@ -149,12 +156,14 @@ CLAIMS = {
         "out-of-range ids) of every shape up to a node bound and random trees to 150 nodes in four layouts incl. removed slots; order-predicate oracles.",
    note=NOTE + ARQ + "In-order is proved equal to the rose-level in-order (left subtree, node, right subtree; single child = left) of the represented tree.", technique="Lean 4 refinement proofs (arena traversal = rose traversal) + differential execution from every start node", ref="5 C10"),
  "C12": dict(
-   text="Kernel-checked theorems: under the arena invariant the sum of CACHED tip depths (what sackin adds up) equals the textbook Sackin index (sum over internal nodes of "
-        "leaves below) of the represented tree; the two-branch root test of is_binary accepts exactly root arities up to three; height/diameter's fold is a maximum "
-        "attained by some leaf (pair); indices are refused on unrooted and on non-binary trees. All statistics of the model are tied to the crate on every shape up to a "
-        "node bound, every rooted binary shape up to a leaf bound, random and edited trees in four layouts, and re-derived from the topology by an independent oracle; "
-        "Yule/PDA normalisations are recomputed in f64 from the textbook closed forms.",
-   note=NOTE + ARQ + "Modelled, not verified: ln, powf and the harmonic sum in f64 (Yule/PDA normalisations; compared within 1e-12 relative).", technique="Lean 4 proofs (Sackin two definitions through the invariant, binarity test) + differential execution + independent recomputation", ref="5 C12"),
+   text="Kernel-checked refinement theorems: for every arena satisfying the invariant and holding one tree, each statistic the executable model computes by scanning ALL arena slots (as the crate does) "
+        "equals the textbook value computed from the topology and branch lengths of the represented tree: leaf count, rooted (root arity two), binary (every node at most two children, the root at most "
+        "three), total length (sum, refused when a length is missing), cherries (nodes with exactly two tip children), Colless (sum over internal nodes of |L-R| in tips, the code's |L-0| on one-child "
+        "nodes stated as such), Sackin (sum of CACHED tip depths = sum over internal nodes of leaves below, through the depth clause of the invariant), height and diameter (maxima over root-to-tip paths / "
+        "tip pairs of the path length, a missing length counting as one edge unit); the indices are refused with the named error on unrooted and on non-binary trees and defined on rooted binary ones. "
+        "All statistics are tied to the crate on every shape up to a node bound, every rooted binary shape up to a leaf bound, random and edited trees in six layouts, and re-derived from the topology by "
+        "an independent oracle; Yule/PDA normalisations are recomputed in f64 from the textbook closed forms.",
+   note=NOTE + ARQ + "Modelled, not verified: ln, powf and the harmonic sum in f64 (Yule/PDA normalisations; compared within 1e-12 relative). The empty arena and the arena whose nodes were all removed are treated by the correspondence only.", technique="Lean 4 refinement proofs (slot scans = rose-level textbook definitions) + differential execution + independent recomputation", ref="5 C12"),
  "C05": dict(
    text="Kernel-checked theorems on the bitmask model of init_partitions for every tree: the reported set is exactly the set of canonical representatives of "
         "the splits induced by non-root internal branches with at least two leaves on each side (partitions_exact), without duplicates, a side and its "
@@ -186,14 +195,18 @@ CLAIMS = {
         "from_newick arenas (length bit patterns) on generated trees in four arena layouts, plus a write/parse/compare/write oracle on the real code.",
    note=NOTE + FLOATTXT, technique="Lean 4 structural-induction proof of the round trip + differential execution of parser/writer models against the crate", ref="5 C01"),
  "C02": dict(
-   text="Kernel-checked theorems over ALL character lists: the parser model terminates, never takes a panic branch, and every returned arena is one "
-        "rooted tree containing all slots (state invariant over the 12 arms of the step function); text without ';' is rejected; accepted text free of double quotes and "
-        "'[' has balanced parentheses before its first ';' with no prefix closing more than it opened (so unbalanced text is rejected); for quote-free text the "
-        "returned arena's written form parses back to an arena representing the same tree and is written identically (normal form). The model is tied "
-        "to from_newick by comparing outcome class and the complete arena on every string up to a length bound over the token alphabet (exhaustive), all "
-        "short float lexemes, mutated valid Newick and random Unicode; oracles on the real code: no unwinding, single root, reachability, normal form, rejection.",
-   note=NOTE + FLOATTXT + "Inside double quotes and bracket comments parentheses are not structural; there the balance clause is decided by the exhaustive correspondence and the rejection oracle.",
-   technique="Lean 4 state-invariant proofs over the parser automaton + exhaustive short-string differential execution", ref="5 C02"),
+   text="Kernel-checked theorems over ALL character lists (quotes and comments anywhere): the parser model terminates, never takes a panic branch, and every returned arena is one "
+        "rooted tree containing all slots (state invariant over the arms of the step function); every label it stores lies in the domain of the round-trip theorem (labels_ok_all: the quote flag "
+        "and the name buffer stay in step), so for EVERY accepted text the returned arena's written form parses back to an arena representing the same tree and is written identically (normal_form_all); "
+        "text without ';' is rejected; REJECTION under the plain three-mode lexical reading of the format (plain / inside double quotes / inside a bracket comment, independent of the parser's fields): "
+        "whatever is accepted has a structural ';' and balanced structural parentheses before it with no prefix closing more than it opened — for every number parser that refuses a lexeme containing a "
+        "double quote, proved of the recogniser the driver runs (reject_unbalanced_float, no hypothesis left); with the exact field-aware tokenizer no assumption at all; a quote inside a branch length is "
+        "always an error. The proof attempt forced the hypothesis 'no quote is read inside a branch length' and thereby exposed a genuine defect (accepted unbalanced text, written form not parseable), "
+        "repaired in the crate. The model is tied to from_newick by comparing outcome class and the complete arena on every string up to a length bound over the token alphabet (exhaustive), every label "
+        "up to a bound over quote / backslash / bracket characters, all short float lexemes, mutated valid Newick (incl. quotes after lengths) and random Unicode; balanced text nested 10^4..10^6 deep is "
+        "parsed in a child process; oracles on the real code: no unwinding, single root, reachability, normal form, rejection under the lexical reading for every text.",
+   note=NOTE + FLOATTXT,
+   technique="Lean 4 state-invariant proofs over the parser automaton (totality, well-formedness, label domain, normal form, lexical rejection) + exhaustive short-string differential execution", ref="5 C02"),
  "C16": dict(
    text="Kernel-checked theorems for all nine formats and all trees: the format's text is the full-format text of the tree with exactly the omitted "
         "fields erased (strip), the arena writer produces it on every arena layout, stripping stays inside the round-trip domain, and parsing the text "
